@@ -6,7 +6,7 @@ VARIABLE k
 ReqOf(r) == [i \in 1..Len(r) |-> <<r[i][1], r[i][2]>>]
 TInit == /\ k \in 1..Len(TLog) /\ kind = TLog[k].kind /\ form = TLog[k].form
          /\ req = ReqOf(TLog[k].req) /\ xis = TLog[k].xis
-         /\ term = TermOf(kind) /\ rows = Rows(req, form)
+         /\ term = TermOf(kind) /\ rows = Rows(req, form) /\ msq = MetricSqOf(kind) /\ dir = DirOf(kind)
 TNext == UNCHANGED <<k, vars>>
 TSpec == TInit /\ [][TNext]_<<k, vars>>
 Rec == TLog[k]
@@ -24,5 +24,6 @@ GaugeConforms == Rec.type = "gauge" =>
    /\ Rec.status = "ok"
    /\ Rec.traj_same /\ Rec.attach_same /\ Rec.event_same      \* re-centring changes no trajectory, attachment or event likelihood
    /\ Rec.zero_mean                                             \* and makes the log-accelerations zero-mean
-   /\ Rec.orthogonal                                            \* every row of the mixing matrix is orthogonal (in the metric) to progression
+   /\ Rec.orthogonal                                            \* every row of the mixing matrix is orthogonal to progression in the metric
+                                                                \* (metric and direction: the terms msq / dir evaluated by the driver)
 =============================================================================
